@@ -36,6 +36,41 @@ class FieldStub:
         self.dof = int(d)
 
 
+def assemble_rule(ctx):
+    repo = ctx.repo
+    mod = repo.module(FORMS)
+    # ---- R13.2
+    r2 = ctx.rule("R13.2", "Assemble: matrices scatter with Get_rows_e / Get_columns_e, vectors with Get_assembly_e and column 0, in the order of Integrate_e(...).ravel()", min_instances=2)
+    for cname, want_rows, want_cols in (("BiLinearForm", "Get_rows_e", "Get_columns_e"), ("LinearForm", "Get_assembly_e", "zeros")):
+        ci = mod.classes[cname]
+        f = ci.methods["Assemble"]
+        r2.instance(fn=f.qualname)
+        from ..flow import Locals
+
+        L = Locals(f.node)
+        csr = [n for n in ast.walk(f.node) if isinstance(n, ast.Call) and (dotted(n.func) or "").endswith("csr_matrix")]
+        ok = False
+        detail = ""
+        if csr and csr[0].args:
+            a0 = L.resolve(csr[0].args[0])
+            if isinstance(a0, ast.Tuple) and len(a0.elts) == 2 and isinstance(L.resolve(a0.elts[1]), ast.Tuple):
+                vals, idx = a0.elts[0], L.resolve(a0.elts[1])
+                vo, ro, co = L.text(vals), L.text(idx.elts[0]), L.text(idx.elts[1])
+                rows_ok = f".{want_rows}(" in ro and ro.endswith(".ravel()")
+                if want_cols == "zeros":
+                    cols_ok = co.startswith("np.zeros_like(") or co.startswith("np.zeros(")
+                else:
+                    cols_ok = f".{want_cols}(" in co and co.endswith(".ravel()")
+                vals_ok = ".Integrate_e(" in vo and ".ravel()" in vo
+                ok = rows_ok and cols_ok and vals_ok
+                detail = f"values <- {vo}; rows <- {ro}; cols <- {co}"
+        if ok:
+            r2.ok(f"{cname}.Assemble: {detail}")
+        else:
+            r2.fail(f.qualname, "index-maps", f.file, f.lineno, f"{cname}.Assemble", f"the sparse constructor is not fed with (Integrate_e.ravel(), ({want_rows}.ravel(), {'0' if want_cols == 'zeros' else want_cols + '.ravel()'})): {detail or 'csr_matrix((values, (rows, cols))) not found'}")
+
+
+
 def run(ctx):
     repo = ctx.repo
     ctx.level = "other"
@@ -90,35 +125,7 @@ def run(ctx):
             else:
                 r1.ok(f"{cname}.Integrate_e dof_n={dof_n}: (node, dof) = (i // dof_n, i % dof_n), weighted by wJ")
 
-    # ---- R13.2
-    r2 = ctx.rule("R13.2", "Assemble: matrices scatter with Get_rows_e / Get_columns_e, vectors with Get_assembly_e and column 0, in the order of Integrate_e(...).ravel()", min_instances=2)
-    for cname, want_rows, want_cols in (("BiLinearForm", "Get_rows_e", "Get_columns_e"), ("LinearForm", "Get_assembly_e", "zeros")):
-        ci = mod.classes[cname]
-        f = ci.methods["Assemble"]
-        r2.instance(fn=f.qualname)
-        from ..flow import Locals
-
-        L = Locals(f.node)
-        csr = [n for n in ast.walk(f.node) if isinstance(n, ast.Call) and (dotted(n.func) or "").endswith("csr_matrix")]
-        ok = False
-        detail = ""
-        if csr and csr[0].args:
-            a0 = L.resolve(csr[0].args[0])
-            if isinstance(a0, ast.Tuple) and len(a0.elts) == 2 and isinstance(L.resolve(a0.elts[1]), ast.Tuple):
-                vals, idx = a0.elts[0], L.resolve(a0.elts[1])
-                vo, ro, co = L.text(vals), L.text(idx.elts[0]), L.text(idx.elts[1])
-                rows_ok = f".{want_rows}(" in ro and ro.endswith(".ravel()")
-                if want_cols == "zeros":
-                    cols_ok = co.startswith("np.zeros_like(") or co.startswith("np.zeros(")
-                else:
-                    cols_ok = f".{want_cols}(" in co and co.endswith(".ravel()")
-                vals_ok = ".Integrate_e(" in vo and ".ravel()" in vo
-                ok = rows_ok and cols_ok and vals_ok
-                detail = f"values <- {vo}; rows <- {ro}; cols <- {co}"
-        if ok:
-            r2.ok(f"{cname}.Assemble: {detail}")
-        else:
-            r2.fail(f.qualname, "index-maps", f.file, f.lineno, f"{cname}.Assemble", f"the sparse constructor is not fed with (Integrate_e.ravel(), ({want_rows}.ravel(), {'0' if want_cols == 'zeros' else want_cols + '.ravel()'})): {detail or 'csr_matrix((values, (rows, cols))) not found'}")
+    assemble_rule(ctx)
 
     # ---- R13.3
     r3 = ctx.rule("R13.3", "WeakForms.Construct_local_matrix_system: computeK, computeC, computeM, computeF fill slots 0..3, each integrated on the same field and multiplied by the thickness once", min_instances=1)
